@@ -39,6 +39,13 @@ RULE += (' ' +
          'handler that uninstalls itself while running; a handler that '
          'queues a farewell and calls the plain disconnect() (the farewell '
          'must reach the server). ')
+RULE += (' ' +
+         'Added in later rounds: a bystander Connection; peer reset with '
+         'replies queued; a final handler that is a falsy callable; a final '
+         'handler that uninstalls itself while running; a handler that '
+         'queues a farewell and calls the plain disconnect() (the farewell '
+         'must reach the server). Round 11: handlers that re-raise with a '
+         'bare `raise` (while the original exception is the current one). ')
 LEVEL_TEXT = ('Enumeration of fault origins x handler-chain configurations '
               '(complete for chains up to length 2 over a 6-class hierarchy) '
               'against a reference model of the documented try/except '
